@@ -10,13 +10,13 @@ CONSTANTS
   SeekMax = 3
   Ops = TRUE
   Hints = {1, 2}
-  IterSingleLine = TRUE
+  IterSingleLine = FALSE
   Emit = FALSE
   Modes = {"byname"}
   ClampReadline = TRUE
   PadOdd = TRUE
   SeekFirst = TRUE
-  IterYieldsAll = FALSE
+  IterYieldsAll = TRUE
 SPECIFICATION Spec
 INVARIANT TypeOK
 INVARIANT IndexExact
